@@ -152,6 +152,7 @@ def build(cfg, extra_env=None):
     if c["rustflags"]:
         env["RUSTFLAGS"] = c["rustflags"]
     env["GLAMSIM_OPS"] = gen_ops(cfg)[0]
+    env["GLAMSIM_INT"] = os.path.join(os.path.dirname(env["GLAMSIM_OPS"]), "int_generated.rs")
     env.update(extra_env or {})
     t0 = time.time()
     p = subprocess.run(cmd, env=env, cwd=SIM, stdout=subprocess.PIPE, stderr=subprocess.STDOUT, text=True)
@@ -244,6 +245,7 @@ def miri_env(cfg):
     env = base_env()
     env["MIRIFLAGS"] = MIRI_FLAGS
     env["GLAMSIM_OPS"] = gen_ops(cfg)[0]
+    env["GLAMSIM_INT"] = os.path.join(os.path.dirname(env["GLAMSIM_OPS"]), "int_generated.rs")
     # cargo-miri records the bin crate's build environment once and replays it at run time; cargo does not notice a changed
     # env!() input by itself. Invalidate the recorded invocation whenever the ops path is not the one recorded before.
     td = target_dir(cfg)
@@ -327,6 +329,7 @@ def asan_binary():
     env = base_env()
     env["RUSTFLAGS"] = "-Zsanitizer=address"
     env["GLAMSIM_OPS"] = gen_ops("asan")[0]
+    env["GLAMSIM_INT"] = os.path.join(os.path.dirname(env["GLAMSIM_OPS"]), "int_generated.rs")
     cmd = ["cargo", "+nightly", "build", "--release", "--offline", "--manifest-path", manifest_path(), "--no-default-features",
            "--target", "x86_64-unknown-linux-gnu", "--target-dir", target_dir("asan")]
     t0 = time.time()
